@@ -167,6 +167,7 @@ theorem readWorking_spec (fill : Inst → Inst) (hfill : FillOk fill) (asev : In
       obtain ⟨n, hnl, rfl⟩ := he
       have := hc n hnl r hr
       simpa [ids, toEntry, live] using this)
+    (Or.inr (Or.inl rfl))      -- a working-session read into the cleared manager has offset 0: nothing is renumbered
   rw [hkept] at h2
   constructor
   · unfold readWorking appendFile
@@ -288,7 +289,7 @@ theorem C16_same_as_exchange (asev : Inst → Sev) (s : Sess) (hs : Inv s) (hn :
       obtain ⟨n, hnl, rfl⟩ := hi
       have := hc n hnl r hr
       simpa [writeExchange, ids] using this
-  rw [(C14_read _ hconf).1, C16_roundtrip asev s hs hn hc hd]
+  rw [(C14_read noSev _ hconf (fun _ _ => rfl)).1, C16_roundtrip asev s hs hn hc hd]
   simp [writeExchange, Function.comp_def]
 
 /-! ### the whole file: HEADER section and instance comments -/
